@@ -70,7 +70,10 @@ Resolve(p) ==
 \* the request of document d as the client builds it, re-spelled, or carrying members the request model does not
 \* know (a parser may or may not accept those - C07's business; what it accepts must come back as a DID that resolves)
 RequestShapes == {"as_built", "whitespace", "member_order", "further_member", "further_delta_member", "further_suffix_member",
-                  "member_case", "escaped_member_name"}
+                  "member_case", "escaped_member_name", "truncated_commitment", "empty_commitment"}
+\* a request whose commitment is no multihash (the code of a configured algorithm, a digest that is cut short / absent)
+\* is no valid create request: nothing is handed out for it
+MustRefuse(shape) == shape \in {"truncated_commitment", "empty_commitment"}
 \* the same request in another spelling is the same request: it is accepted and answered with the same DID
 SameRequest(shape) == shape \in {"as_built", "whitespace", "member_order"}
 \* the DID that comes back is, by definition, ns : suffix of the request : canonical state of the request
@@ -103,7 +106,7 @@ Deterministic == [][\A a \in Args : created[a] # Undefined => created'[a] = crea
 \* distinct arguments, distinct DIDs
 Injective == \A a, b \in Args : created[a] # Undefined /\ created[a] = created[b] => a = b
 \* what the handler hands out for a create request it accepts resolves
-ProcessedResolves == processed # NotProcessed => Resolves(ReturnedDID(processed))
+ProcessedResolves == (processed # NotProcessed /\ ~MustRefuse(processed.shape)) => Resolves(ReturnedDID(processed))
 \* only one shape resolves
 OnlyOwnNamespace == Resolves(probe) => probe.ns = "same"
 =============================================================================
